@@ -71,7 +71,7 @@ pub fn check(c: &Case) -> CheckResult {
     let mut o = Outcome::new();
     o.fp = fp_of(c);
     let Some(inv) = xf_inverse64(&c.ctm) else { return Err("HARNESS: singular CTM generated".into()) };
-    let mut dt = DrawTarget::new(c.w, c.h);
+    let mut dt = blank_target(c.w, c.h);
     dt.set_transform(&to_transform(&c.ctm));
     harmless_prelude(&mut dt, (c.w * 7 + c.h * 13 + c.img.w * 5 + c.img.h * 3 + c.nearest as i32) as u32);
     let src = SrcSpec::Image { img: c.img.clone(), repeat: c.repeat, nearest: c.nearest, xf: c.sxf };
